@@ -832,11 +832,13 @@ impl<'de> Deserialize<'de> for Scheme {
                 A: serde::de::MapAccess<'de>,
             {
                 let mut builder = SchemeBuilder::new();
+                // The key cannot always be borrowed from the input (readers,
+                // value trees, names with JSON escapes).
                 while let Some((name, SerdeField { ty, optional })) =
-                    map.next_entry::<&str, SerdeField>()?
+                    map.next_entry::<std::borrow::Cow<'de, str>, SerdeField>()?
                 {
                     builder
-                        .add_field_full(name.into(), ty, optional)
+                        .add_field_full(name.as_ref().into(), ty, optional)
                         .map_err(A::Error::custom)?;
                 }
 
